@@ -1,6 +1,6 @@
 """One real endpoint against a scripted counterparty (built on vlib.simnet)."""
 from asyncfix.connection import ConnectionState
-from vlib.reffix import ref_check_frame, ref_get, ref_msg, ref_parse
+from vlib.reffix import reassemble, ref_check_frame, ref_get, ref_msg, ref_parse
 from vlib.simnet import World, acceptor_world, initiator_world
 
 DISC = {ConnectionState.DISCONNECTED_NOCONN_TODAY, ConnectionState.DISCONNECTED_WCONN_TODAY, ConnectionState.DISCONNECTED_BROKEN_CONN}
@@ -49,12 +49,12 @@ class Bench:
     def written(self):
         """Frames written by the endpoint since mark(), parsed: list of (raw, [(tag, value)])."""
         out = []
-        for _, b in self.link.writers[self.side].written[self._w0:]:
+        for b in reassemble([b for _, b in self.link.writers[self.side].written[self._w0:]]):
             out.append((b, ref_parse(b)))
         return out
 
     def all_written(self):
-        return [b for _, b in self.link.writers[self.side].written]
+        return reassemble([b for _, b in self.link.writers[self.side].written])
 
     def delivered(self):
         return self.ep.app_msgs[self._m0:]
